@@ -4,6 +4,7 @@ import (
 	"fmt"
 	"go/token"
 	"go/types"
+	"sort"
 	"strings"
 
 	"golang.org/x/tools/go/ssa"
@@ -133,6 +134,68 @@ func (x *Exec) doCall(st *State, in ssa.Instruction, c *ssa.CallCommon, mode str
 			res = r
 		} else if stub := x.W.StubFor(name); stub != nil {
 			res = x.applyContract(st, in, stub, nil, name, c, all, results)
+		} else if impls := x.closedImpls(c); len(impls) > 0 && mode == "call" && d == nil {
+			// closed-world dispatch: the interface has an unexported method, so only the types of its own
+			// package implement it; one path per implementer, each checked against ITS contract
+			for k, im := range impls {
+				q := st
+				label := fmt.Sprintf("b%d:dyn[%s]", fr.blk.Index, shortTypeKey(im.dyn))
+				if k < len(impls)-1 {
+					q = x.fork(st, label)
+				} else {
+					q.path = append(q.path, label)
+				}
+				q.Restrict(Eq(ITy(recv), IntLit(int64(x.D.TypeID(im.dyn)))))
+				rv := x.unbox(q, recv, im.dyn)
+				if im.deref != nil {
+					if x.wantNoPanic {
+						o := x.oblig("nopanic[nil receiver "+shortTypeKey(im.dyn)+" "+x.srcOf(in)+"]", "nopanic", nil, in.Pos())
+						x.Assert(q, o, Neq(rv, Zero))
+					} else {
+						q.Restrict(Neq(rv, Zero))
+					}
+					rv = x.loadStruct(q, rv, im.deref)
+				} else if rv.Sort == SInt {
+					q.Assume(x.D.WF(rv, im.dyn, q.top, 0))
+				}
+				cargs := append([]SymVal{rv}, args...)
+				cname := x.P.ShortName(im.fn)
+				var r []SymVal
+				if fc := x.W.ContractFor(im.fn); fc != nil && !fc.Inline && (fc.Trusted || len(fc.Ensures) > 0 || len(fc.Requires) > 0) {
+					x.ByContract[cname] = true
+					fake := &ssa.CallCommon{Value: im.fn}
+					r = x.applyContract(q, in, fc, im.fn, cname, fake, cargs, results)
+				} else {
+					for _, a := range cargs {
+						x.escape(q, a)
+					}
+					x.advanceTop(q)
+					for key := range x.W.fnWrites(x, im.fn) {
+						if _, ok := x.keySort(key); ok {
+							x.havocKey(q, key)
+						}
+					}
+					x.Abstracted[cname] = true
+					r = x.freshResults(q, results, "dyn_"+c.Method.Name())
+				}
+				x.fireHooks(q, in, hookKind(mode), true, all, r)
+				if resVal != nil {
+					q.fr.vals[resVal] = packResults(r)
+				}
+				if k < len(impls)-1 {
+					q.fr.idx++
+					x.run(q)
+				}
+			}
+			if !x.Dispatched[name] {
+				var ts []string
+				for _, im := range impls {
+					ts = append(ts, shortTypeKey(im.dyn))
+				}
+				x.Notes = append(x.Notes, "interface call "+name+" resolved by closed-world dispatch over the implementers of its package ("+strings.Join(ts, ", ")+"), each against its own contract; dynamic types of other packages that merely embed the interface are not considered")
+			}
+			x.Dispatched[name] = true
+			return false
 		} else {
 			x.Abstracted[name] = true
 			for _, a := range args {
@@ -1271,3 +1334,73 @@ func (x *Exec) checkEnsures(st *State, i *ssa.Return, res []SymVal) {
 }
 
 var _ = token.NoPos
+
+// implOf is one implementer of a package-closed interface method.
+type implOf struct {
+	dyn   types.Type    // dynamic type stored in the interface value (T or *T)
+	deref types.Type    // non-nil: dyn is *T and the method is declared on T (the receiver is a copy of *ptr)
+	fn    *ssa.Function // the declared method
+}
+
+// closedImpls lists the implementers of an interface call when the set is closed: the interface is a named
+// type of a verified package and the method called is unexported (no type of another package can declare
+// it). Types that embed the interface or an implementer (promoted methods) are not followed.
+func (x *Exec) closedImpls(c *ssa.CallCommon) []implOf { return x.W.closedImpls(c) }
+
+func (w *World) closedImpls(c *ssa.CallCommon) []implOf {
+	if !c.IsInvoke() || c.Method.Exported() || c.Method.Pkg() == nil || !w.P.Verified[c.Method.Pkg().Path()] {
+		return nil
+	}
+	it, ok := types.Unalias(c.Value.Type()).Underlying().(*types.Interface)
+	if !ok {
+		return nil
+	}
+	key := typeKey(c.Value.Type()) + "." + c.Method.Name()
+	if r, ok := w.implCache[key]; ok {
+		return r
+	}
+	var out []implOf
+	scope := c.Method.Pkg().Scope()
+	names := scope.Names()
+	sort.Strings(names)
+	for _, n := range names {
+		tn, ok := scope.Lookup(n).(*types.TypeName)
+		if !ok || tn.IsAlias() {
+			continue
+		}
+		T := tn.Type()
+		if _, isI := T.Underlying().(*types.Interface); isI {
+			continue
+		}
+		for _, dyn := range []types.Type{T, types.NewPointer(T)} {
+			if !types.Implements(dyn, it) {
+				continue
+			}
+			sel := types.NewMethodSet(dyn).Lookup(c.Method.Pkg(), c.Method.Name())
+			if sel == nil || len(sel.Index()) != 1 {
+				continue
+			}
+			fo, ok := sel.Obj().(*types.Func)
+			if !ok {
+				continue
+			}
+			fn := w.P.SSA.FuncValue(fo)
+			if fn == nil || len(fn.Blocks) == 0 {
+				continue
+			}
+			im := implOf{dyn: dyn, fn: fn}
+			rt := fo.Type().(*types.Signature).Recv().Type()
+			if _, dynPtr := dyn.(*types.Pointer); dynPtr {
+				if _, recvPtr := types.Unalias(rt).(*types.Pointer); !recvPtr {
+					im.deref = T
+				}
+			}
+			out = append(out, im)
+		}
+	}
+	if w.implCache == nil {
+		w.implCache = map[string][]implOf{}
+	}
+	w.implCache[key] = out
+	return out
+}
